@@ -204,6 +204,51 @@ def load_order():
     return [(fn, bool(tol)) for fn, tol in calls]
 
 
+def mode_names():
+    """CacheFetcher::getModes: the shortnames of the mode table (keys of `modes.emplace(...)`), and Mode::TRANSFERABLE"""
+    t = strip_comments(src("src/modes_initialization.cpp"))
+    mh = strip_comments(src("include/mode.hpp"))
+    m = re.search(r"std::string\s+TRANSFERABLE\s*\{\s*\"([^\"]*)\"\s*\}", mh)
+    if not m: raise ValueError("Mode::TRANSFERABLE not found")
+    transferable = m.group(1)
+    b = function_body(t, r"CacheFetcher::getModes\s*\(\s*\)\s*")
+    keys = re.findall(r"modes\.emplace\(\s*(\"[^\"]*\"|Mode::TRANSFERABLE)\s*,", b)
+    if len(keys) < 3 or len(keys) != len(re.findall(r"modes\.emplace\(", b)): raise ValueError("getModes: emplace calls not recognised")
+    return [transferable if k == "Mode::TRANSFERABLE" else k.strip('"') for k in keys], transferable
+
+
+def _disjuncts(cond):
+    return [re.sub(r"\s+", " ", x.strip()) for x in cond.split("||")]
+
+
+def loader_validations():
+    """the guards in front of the unchecked / parallel-array reads of the schedule and node loaders, as normalised disjuncts:
+    a trip record is skipped (`continue`) when one holds; a node file is refused (`return -EBADMSG`) when one holds"""
+    t = strip_comments(src("src/trips_and_connections_cache_fetcher.cpp"))
+    m = re.search(r"const\s+unsigned\s+long\s+tripNodeTimesCount\s*=\s*capnpTrip\.getNodeArrivalTimesSeconds\(\)\.size\(\)\s*;\s*if\s*\(([^;{]*?)\)\s*\{\s*spdlog::error\([^;]*\)\s*;\s*continue\s*;\s*\}", t, re.S)
+    if not m: raise ValueError("trip validation guard not recognised")
+    trip = _disjuncts(m.group(1))
+    # the guard must come before the first use of nodesRef[...] and before trips.emplace
+    if not (m.end() < t.index("trips.emplace") and m.end() < t.index("path.nodesRef[")): raise ValueError("trip validation does not precede the indexing")
+    # loop bound of the connection loop and the indexes it reads
+    lb = re.search(r"nodeTimesCount\s*=\s*capnpTrip\.getNodeArrivalTimesSeconds\(\)\.size\(\)\s*;", t)
+    lp = re.search(r"for\s*\(\s*unsigned\s+long\s+nodeTimeI\s*=\s*0\s*;\s*nodeTimeI\s*<\s*nodeTimesCount\s*-\s*1\s*;\s*nodeTimeI\+\+\s*\)", t)
+    if not (lb and lp): raise ValueError("connection loop bound not recognised")
+    args = re.search(r"connections\.push_back\(Connection\((.*?)\)\);", t, re.S)
+    if not args: raise ValueError("Connection construction not recognised")
+    conn = [re.sub(r"\s+", " ", a.strip()) for a in args.group(1).split(",\n")]
+    back = re.search(r"if\s*\(\s*capnpTrip\.getNodeArrivalTimesSeconds\(\)\[nodeTimeI \+ 1\]\s*<\s*capnpTrip\.getNodeDepartureTimesSeconds\(\)\[nodeTimeI\]\s*\)", t)
+    if not back: raise ValueError("backwards-hop test not recognised")
+    n = strip_comments(src("src/nodes_cache_fetcher.cpp"))
+    m2 = re.search(r"transferableNodesCount\s*\{\s*capnpT\.getTransferableNodesUuids\(\)\.size\(\)\s*\}\s*;\s*if\s*\(([^;{]*?)\)\s*\{\s*spdlog::error\([^;]*\)\s*;\s*close\(fd\)\s*;\s*return\s+-EBADMSG\s*;\s*\}", n, re.S)
+    if not m2: raise ValueError("node file size guard not recognised")
+    node = _disjuncts(m2.group(1))
+    skips = [bool(re.search(r"if\s*\(\s*ts\.count\(nodeUuid\)\s*==\s*0\s*\)\s*\{\s*spdlog::error\([^;]*\)\s*;\s*continue\s*;", n)),
+             bool(re.search(r"if\s*\(\s*travelTime\s*<\s*0\s*\)\s*\{\s*spdlog::error\([^;]*\)\s*;\s*continue\s*;", n))]
+    if not all(skips): raise ValueError("node file: unknown-stop / negative-time skips not recognised")
+    return trip, conn, node
+
+
 def loader_catch_facts():
     """per cache fetcher: the deserialisation is inside try, with a handler for kj::Exception and one for everything else"""
     facts = {}
@@ -349,6 +394,16 @@ def main():
     lo = guard("load-order", load_order, [])
     L += ["/-- TransitData::loadAllData: (update call, a missing file is tolerated), in call order; a hard failure returns early -/",
           "def loadOrder : List (String × Bool) := " + llist(lo, lambda x: "(%s, %s)" % (lstr(x[0]), "true" if x[1] else "false")), ""]
+    mn, tr = guard("mode-names", mode_names, ([], ""))
+    L += ["/-- shortnames of the mode table of CacheFetcher::getModes, in source order; Mode::TRANSFERABLE -/",
+          "def modeNames : List String := " + llist(mn), "def transferableName : String := " + lstr(tr), ""]
+    tv, cv, nv = guard("loader-validations", loader_validations, ([], [], []))
+    L += ["/-- a trip record is skipped when one of these holds (trips_and_connections_cache_fetcher.cpp, before any indexing) -/",
+          "def tripValidation : List String := " + llist(tv),
+          "/-- arguments of the Connection constructed for hop nodeTimeI (loop: nodeTimeI < nodeTimesCount - 1) -/",
+          "def connectionArgs : List String := " + llist(cv),
+          "/-- a per-stop file is refused when one of these holds (nodes_cache_fetcher.cpp) -/",
+          "def nodeFileValidation : List String := " + llist(nv), ""]
     fk, rk = guard("sort-comparators", sort_comparators, ([], []))
     L += ["/-- keys of the two stable sorts of TransitData::generateForwardAndReverseConnections: (getter, operator of the `return true` test), in order -/",
           "def fwdSortKeys : List (String × String) := " + llist(fk, lambda x: "(%s, %s)" % (lstr(x[0]), lstr(x[1]))),
